@@ -222,6 +222,20 @@ fn run(ctx: &mut Ctx) {
                 check(ctx, &b, "block size field");
                 b = sb.clone();
             }
+            // the two 16-bit words that head the block in every other encoding of their value: negated, complemented,
+            // byte-swapped, sign bit set
+            for word in 0..2 {
+                let o = 52 + per * k + 2 * word;
+                let v = u16::from_le_bytes([sb[o], sb[o + 1]]);
+                for nv in [v.wrapping_neg(), !v, v.swap_bytes(), v | 0x8000, v.wrapping_neg().wrapping_sub(1), 0u16.wrapping_sub(v).swap_bytes()] {
+                    if nv == v {
+                        continue;
+                    }
+                    let mut b = sb.clone();
+                    b[o..o + 2].copy_from_slice(&nv.to_le_bytes());
+                    check(ctx, &b, "block header word in another encoding of its value");
+                }
+            }
             if seed.requested_samples % 2 == 1 {
                 for j in 0..2 {
                     let mut b = sb.clone();
